@@ -29,6 +29,17 @@ Two kinds of cases:
             exit); events `stagein`, `pf:k` (component k is finished by the controller: FINISHED / FAILED /
             SHUTDOWN), `px:k` (engine of k exits resp. is restarted, k stays alive: exit -> restart -> final
             exit histories).
+  dir       (`dir` in the case) a direct case whose producers are REAL Jobs of a real experiment built from generated
+            FlowIR (local backend): events `stage:k` = the real Job.stageIn of producer k (direct references
+            data/params.txt:copy, input/x.dat:link, a reference stage0.up/seed.txt:copy to a component of an earlier
+            stage, both, nothing), `out:k` = its task writes its own file into the real directory (mtime = virtual
+            clock); the observer is the real Job: real Engine.canConsume / Job.producersHaveOutputSinceDate /
+            WorkingDirectory.output decide the launches.
+Notification before run(): `pre: ["fin"]` of a direct case, `stagein` with all producers over of a composed case.
+Never-ending tasks (outcome `hang`): Task.wait() returns only after Task.kill(); while such a task runs the harness
+delivers the remaining events of the turn (s3, s4) and then drives every pending timer (virtual time: the kill delay
+expires); if the task is still not killed the engine thread is blocked for ever and the script ends.  Ground truth
+`expired`: a kill delay is configured, all producers have finished and the delay has elapsed.
 An exception that escapes from the real code while the harness drives it is an oracle failure of the case
 (`real-code-raises-<where>-<Exception>`), not a harness crash.
 Model: lean/St4sd/Model/Repeat.lean + RepeatSub.lean via drv-c13 (repaired behaviour: guardNone +
@@ -308,6 +319,67 @@ def ambient_logging(level):
     return restore
 
 
+# ----------------------------------------------------------------------------------------
+# dir cases: the producers are REAL Jobs of a real experiment (local backend) that stage files into their working
+# directories by direct references (data/params.txt:copy, input/x.dat:link), by a reference to a component of an
+# earlier stage (stage0.up/seed.txt:copy), both or nothing; the observer is the real Job of that experiment
+# ----------------------------------------------------------------------------------------
+# case["dir"] = {"<producer id>": {"direct": ["copy", "link"], "comp": bool}, ...}; events `stage:<id>` (the real
+# Job.stageIn of the producer), `out:<id>` (its task writes its own file r<id>.txt into the real directory)
+
+DIR_FILES = {"params.txt": 1, "x.dat": 2, "seed.txt": 3}
+
+
+def file_number(name):
+    if name in DIR_FILES:
+        return DIR_FILES[name]
+    if name.startswith("r") and name.endswith(".txt") and name[1:-4].isdigit():
+        return 10 + int(name[1:-4])
+    return 1000 + sum(ord(c) for c in name)          # something nobody asked for: shows up in the comparison
+
+
+def dir_spec(case, k):
+    return case["dir"].get(str(k), {"direct": [], "comp": False})
+
+
+def dir_flowir(case):
+    cfg = case["cfg"]
+    out = "components:\n- name: up\n  stage: 0\n  command:\n    executable: echo\n    arguments: seed\n"
+    out += "- name: mid\n  stage: 1\n  command:\n    executable: echo\n    arguments: mid\n"      # no empty stage
+    seen = []
+    obs_refs = []
+    for p in cfg["prods"]:
+        k = p["id"]
+        st = 2 if p["same"] else 1
+        obs_refs.append("stage%d.P%d:ref" % (st, k))
+        if k in seen:
+            raise ValueError("dir cases: one entry per producer")
+        seen.append(k)
+        spec = dir_spec(case, k)
+        refs = []
+        if "copy" in spec["direct"]:
+            refs.append("data/params.txt:copy")
+        if "link" in spec["direct"]:
+            refs.append("input/x.dat:link")
+        if spec["comp"]:
+            refs.append("stage0.up/seed.txt:copy")
+        out += "- name: P%d\n  stage: %d\n  command:\n    executable: cat\n    arguments: x\n" % (k, st)
+        if refs:
+            out += "  references:\n" + "".join("  - %s\n" % r for r in refs)
+        if p["rep"]:
+            out += "  workflowAttributes:\n    repeatInterval: 5\n"
+    out += "- name: %s\n  stage: 2\n  command:\n    executable: ls\n    arguments: %s\n" % (
+        OBS, " ".join(obs_refs) if obs_refs else "x")
+    if obs_refs:
+        out += "  references:\n" + "".join("  - %s\n" % r for r in obs_refs)
+    if cfg.get("dieAfter"):
+        out += "  variables:\n    kill-after-producers-done-delay: \"60.0\"\n"
+    out += "  workflowAttributes:\n    repeatInterval: 5\n"
+    if cfg.get("retries") is not None:
+        out += "    repeatRetries: %d\n" % cfg["retries"]
+    return out
+
+
 class Drv:
     """Runs one scripted case on the real RepeatingEngine."""
 
@@ -333,6 +405,11 @@ class Drv:
         self.cancel_cause = None
         self.die_fired = False
         self.kill_fired = False
+        # ground truth about the kill delay (virtual time): a delay is configured, ALL producers have finished and
+        # the time of the delay has passed since (a `die` event / every pending timer driven while a never-ending
+        # task was running)
+        self.expired = False
+        self.hung = False       # the engine thread waits for ever for a task that nobody killed
         self.thread = threading.get_ident()
         # ground truth about the producers (kept by the harness, independent of the code under test)
         self.world = case.get("world")
@@ -344,6 +421,12 @@ class Drv:
         self.comps = None
         self.obs = None
         self.producers_seen = None
+        # dir cases
+        self.dir = case.get("dir")
+        self.dirjobs = {}       # producer id -> real Job
+        self.dirtmp = None
+        self.staged_in = {}     # producer id -> names of the files its stage-in put into its directory
+        self.dirlog = {}        # producer id -> [[op, output names, input names] ...] after every stage-in / write
 
     def truth(self):
         """have ALL producers of the observer finished (and was the observer staged in)"""
@@ -444,8 +527,82 @@ class Drv:
             raise RuntimeError("engine exit made %s not alive" % comp_ref(self.world, k))
 
     # -- stubs ---------------------------------------------------------------------------
+    def prepare_dir(self):
+        """dir cases: the real experiment (fresh directories for every run)"""
+        from harness import detsim
+        detsim.install()
+        import tests.utils as TU
+        self.dirtmp = tempfile.mkdtemp(prefix="c13-dir-")
+        cwd = os.getcwd()
+        try:
+            with open(os.path.join(self.dirtmp, "x.dat"), "w") as f:
+                f.write("x\n")
+            exp = TU.experiment_from_flowir(dir_flowir(self.case), self.dirtmp,
+                                            extra_files={"data/params.txt": "alpha: 1\n"},
+                                            inputs=[os.path.join(self.dirtmp, "x.dat")], checkExecutables=False)
+        finally:
+            os.chdir(cwd)
+        self.exp = exp
+        up = exp._stages[0].jobWithName("up")
+        with open(os.path.join(up.workingDirectory.path, "seed.txt"), "w") as f:
+            f.write("seed\n")
+        for p in self.prods:
+            self.dirjobs[p["id"]] = exp._stages[2 if p["same"] else 1].jobWithName("P%d" % p["id"])
+        self.obsjob = exp._stages[2].jobWithName(OBS)
+
+    def dir_record(self, k, op):
+        wd = self.dirjobs[k].workingDirectory
+        self.dirlog.setdefault(k, []).append(
+            [op, sorted(file_number(os.path.basename(f)) for f in real("WorkingDirectory.output", lambda: wd.output)),
+             sorted(file_number(os.path.basename(f)) for f in wd.inputs)])
+
+    def stage_producer(self, k):
+        """the Controller stages producer k in: the real Job.stageIn"""
+        if k not in self.dirjobs or k in self.staged_in:
+            return
+        job = self.dirjobs[k]
+        path = job.workingDirectory.path
+        before = set(os.listdir(path))
+        real("Job.stageIn", job.stageIn)
+        self.staged_in[k] = sorted(set(os.listdir(path)) - before)
+        # the files appear NOW (virtual time)
+        t = self.clock.tick().timestamp()
+        for n in self.staged_in[k]:
+            try:
+                os.utime(os.path.join(path, n), (t, t), follow_symlinks=False)
+            except (NotImplementedError, OSError):
+                pass
+        spec = dir_spec(self.case, k)
+        self.dir_record(k, ["stagein", [DIR_FILES[{"copy": "params.txt", "link": "x.dat"}[m]] for m in spec["direct"]],
+                            [DIR_FILES["seed.txt"]] if spec["comp"] else []])
+
+    def make_real_job(self):
+        d = self
+        real_job = self.obsjob
+
+        class JobProxy(object):
+            """the real observer Job; the output check is bracketed by the interleaving point s1"""
+
+            def __getattr__(self_, name):
+                return getattr(real_job, name)
+
+            def producersHaveOutputSinceDate(self_, date):
+                d.seen.add("check")
+                try:
+                    return real_job.producersHaveOutputSinceDate(date)
+                finally:
+                    d.fire("s1")
+        return JobProxy()
+
+    def staged_only(self):
+        """ground truth: same-stage producers whose directory holds staged-in files and nothing of their own"""
+        return sorted(k for k, names in self.staged_in.items()
+                      if names and k not in self.out_time and any(p["id"] == k and p["same"] for p in self.prods))
+
     def make_job(self):
         d = self
+        if d.dir is not None:
+            return d.make_real_job()
 
         import experiment.model.data as D
 
@@ -553,6 +710,16 @@ class Drv:
 
             def wait(self_):
                 d.fire("s3")
+                if out == "hang":
+                    # a task that never ends by itself: whatever else happens during this turn happens while it runs
+                    d.fire("s4")
+                if out == "hang" and not self_.killed:
+                    # ... and then virtual time passes, every pending timer expires
+                    d.drive_timers()
+                    if not self_.killed:
+                        d.hung = True           # nothing is left that could ever end the task
+                        d.seen.add("genend")
+                        raise StopScript()
                 self_.done = True
                 d.seen.add("genend")
 
@@ -567,13 +734,13 @@ class Drv:
             def returncode(self_):
                 if self_.killed:
                     return -9
-                return {"ok": 0, "fail": 1}[out]
+                return {"ok": 0, "fail": 1, "hang": None}[out]
 
             @property
             def exitReason(self_):
                 if self_.killed:
                     return "Killed"
-                return {"ok": "Success", "fail": "KnownIssue"}[out]
+                return {"ok": "Success", "fail": "KnownIssue", "hang": None}[out]
         self.task = Task()
         rec[3] = self.task
         return self.task
@@ -596,10 +763,14 @@ class Drv:
                 self.toggle_engine(int(e[3:]))
             elif e.startswith("out:"):
                 self.output(int(e[4:]))
+            elif e.startswith("stage:"):
+                self.stage_producer(int(e[6:]))
             elif e == "kill":
                 self.kill_fired = True
                 real("kill", self.eng.kill)
             elif e == "die":
+                if self.cfg.get("dieAfter") and self.truth():
+                    self.expired = True
                 if self.timers:
                     self.die_fired = True
                     real("kill-delay-timer", self.timers.pop(0).on_completed)
@@ -617,11 +788,25 @@ class Drv:
         if not before and self.eng.cancelMonitorEvent.is_set():
             self.cancel_cause = {"kill": "external", "die": "killDelay"}.get(e, "event:" + e)
 
+    def drive_timers(self):
+        """virtual time passes until no timer is pending any more"""
+        self.ev("die")
+        while self.timers:
+            self.ev("die")
+
     def output(self, cid):
         """component `cid` writes a file (of interest to the observer only if it is one of its producers)"""
         if cid not in self.prod_ids:
             return
+        if self.dir is not None:
+            self.stage_producer(cid)            # a task runs in a directory that was staged in
         t = self.clock.tick()
+        if self.dir is not None:
+            path = os.path.join(self.dirjobs[cid].workingDirectory.path, "r%d.txt" % cid)
+            with open(path, "a") as f:
+                f.write("%s\n" % t)
+            os.utime(path, (t.timestamp(), t.timestamp()))
+            self.dir_record(cid, ["write", 10 + cid])
         self.out_time[cid] = t
         self.first_out.setdefault(cid, t)
         self.lastOut = t
@@ -629,7 +814,7 @@ class Drv:
 
     def fire(self, slot):
         it = self.it
-        if it is None:
+        if it is None or self.hung:
             return
         key = (id(it), slot)
         if key in self.fired:
@@ -722,9 +907,9 @@ class Drv:
                 d.fire("s0")
                 d.fin_at_begin = bool(d.eng._producers_are_finished)
                 info = {"last": bool(last), "fin_at_begin": d.fin_at_begin, "truth_at_begin": d.truth(),
-                        "suicide_at_begin": bool(d.eng._suicide),
+                        "suicide_at_begin": bool(d.eng._suicide), "expired_at_begin": d.expired,
                         "cancel_at_begin": d.eng.cancelMonitorEvent.is_set(), "error": None,
-                        "partial": d.partial_output()}
+                        "partial": d.partial_output(), "staged_only": d.staged_only()}
                 nl = len(d.launches)
                 d.in_action = True
                 d.clock.hook = d.on_now
@@ -762,6 +947,8 @@ class Drv:
         logging.disable(logging.CRITICAL)
         restore_logging = ambient_logging(self.case.get("log"))
         try:
+            if self.dir is not None:
+                self.prepare_dir()
             for cid in self.cfg.get("pre", []):
                 self.output(cid)
             job = self.make_job()
@@ -770,8 +957,10 @@ class Drv:
                 # the controller: components are created, earlier stages / quick producers are over,
                 # the observer is staged in, then run
                 self.make_components(E)
-                for e in self.case.get("pre", []):
-                    self.ev(e)
+            # events that precede run() (composed: `stagein` notifies at once when no producer is alive; direct:
+            # `fin` - the notification reaches an engine that has not been started; `stage:k` - producer k is staged in)
+            for e in self.case.get("pre", []):
+                self.ev(e)
             # what run() does first; the events of the first `gap` come after it
             real("prime", self.eng._prime)
             if iters:
@@ -785,6 +974,8 @@ class Drv:
         finally:
             restore_logging()
             logging.disable(prev_disable)
+            if self.dirtmp is not None:
+                shutil.rmtree(self.dirtmp, ignore_errors=True)
             reactivex.scheduler.ThreadPoolScheduler = saved_tps
             (E.datetime, reactivex.interval, reactivex.timer, M.CreateMonitor, M.threading, M.time,
              E.Engine.enginePoolScheduler, E.Engine.triggerPoolScheduler, E.Engine.taskPoolScheduler) = saved
@@ -795,7 +986,11 @@ class Drv:
                 "info": self.info, "cause": self.cancel_cause,
                 "missing": [m for _t, _o, m, _k in self.launches], "any_output": self.anyOut,
                 "sublog": self.sublog, "early": self.early, "truth_end": self.truth(),
-                "flag_end": bool(self.eng._producers_are_finished), "producers": self.producers_seen}
+                "flag_end": bool(self.eng._producers_are_finished), "producers": self.producers_seen,
+                "hung": self.hung, "expired": self.expired,
+                "dirlog": {str(k): v for k, v in sorted(self.dirlog.items())},
+                "staged_in": {str(k): v for k, v in sorted(self.staged_in.items())},
+                "tasks_alive": sum(1 for _t, _o, _m, k in self.launches if k is not None and k.isAlive())}
 
 
 # ----------------------------------------------------------------------------------------
@@ -814,7 +1009,9 @@ def oracle(case, out):
     for i, m in enumerate(out["missing"]):
         if m:
             fails.append(("executed-before-consumable-output",
-                          {"launch": i, "same_stage_producers_without_output": m}))
+                          {"launch": i, "same_stage_producers_without_output": m,
+                           "their_directories_held_only_staged_inputs":
+                               {str(k): out.get("staged_in", {}).get(str(k)) for k in m}}))
             break
     # 2. a stop decided by the engine itself (not an external kill, not the kill delay) comes only after ALL
     #    producers finished (the harness's own record: the `fin` event of a direct case; stage-in and the finish
@@ -865,9 +1062,17 @@ def oracle(case, out):
             if i.get("executed") and i.get("rc0") and not i["cancel_after"]:
                 fails.append(("success-after-producers-finished-did-not-stop", {"poll": k}))
                 break
-            if i["suicide_at_begin"] and not i["cancel_after"]:
+            if (i["suicide_at_begin"] or i.get("expired_at_begin")) and not i["cancel_after"]:
                 fails.append(("kill-delay-expired-engine-keeps-polling", {"poll": k}))
                 break
+    # 3'. "... or the configured kill delay expires": a kill delay is configured, all producers have finished, the time
+    #    of the delay has passed (the harness's own record; it drove every pending timer) and the engine thread still
+    #    waits for a task that nobody killed: nothing will ever stop the observer
+    if out.get("hung") and out.get("expired"):
+        fails.append(("kill-delay-expired-task-never-killed",
+                      {"launches": len(out["execs"]), "tasks_still_running": out.get("tasks_alive"),
+                       "engine_alive": out["final"]["alive"], "engine_cancelled": out["final"]["cancel"],
+                       "poll": len(out["info"]) - 1, "engine_noticed_the_expiry": out["final"]["suicide"]}))
     return fails
 
 
@@ -909,6 +1114,17 @@ def leftover_style(rng, iters, fin_iter):
         it["outcome"] = after
 
 
+def never_ending_style(rng, cfg, iters, fin_pos):
+    """the observer's task never ends by itself (`tail -f`, a monitoring daemon: the use-case of
+    kill-after-producers-done-delay): from some poll around the notification on every launch is such a task"""
+    if rng.random() >= (0.45 if cfg.get("dieAfter") else 0.04):
+        return
+    start = 0 if fin_pos is None else max(0, fin_pos[0] + rng.choice([-2, -1, 0, 0, 0, 1, 2]))
+    for it in iters[start:]:
+        if it.get("outcome") != "raise" or rng.random() < 0.7:
+            it["outcome"] = "hang"
+
+
 def gen_case(rng, tier):
     prods = gen_prods(rng)
     ids = sorted({p["id"] for p in prods})
@@ -929,16 +1145,23 @@ def gen_case(rng, tier):
         s = rng.choice(slots)
         iters[i].setdefault(s, []).append(e)
         return i, SLOTS.index(s)
-    # producers finish somewhere in the first part (or never)
+    # producers finish somewhere in the first part (or never) - or before run() (what ComponentState.stageIn does
+    # when no producer is alive at stage-in: all the output there will ever be predates run())
     fin_pos = None
-    if rng.random() < 0.9:
+    pre_events = []
+    x = rng.random()
+    if x < 0.12:
+        pre_events = ["fin"]
+        fin_pos = (-1, 0)
+        cfg["pre"] = [k for k in ids if rng.random() < 0.8]
+    elif x < 0.9:
         hi = max(0, n - r - 3)
         fin_pos = place("fin", 0, rng.randint(0, hi))
     if fin_pos is not None and rng.random() < 0.2:
         leftover_style(rng, iters, fin_pos[0])
     # outputs strictly before the notification; every same-stage producer starts writing at a moment of its
     # own (staggered producers) or never writes at all
-    writers = [k for k in (same_ids or ids) if rng.random() < 0.85]
+    writers = [k for k in (same_ids or ids) if rng.random() < 0.85] if not pre_events else []
     outs = []
     for k in writers:
         outs += ["out:%d" % k] * rng.choice([1, 1, 1, 2, 3])
@@ -946,6 +1169,8 @@ def gen_case(rng, tier):
         rng.shuffle(outs)             # else: one producer after the other
     if rng.random() < 0.1:
         outs.append("out:%d" % rng.randint(0, 5))           # some component, maybe no producer at all
+    if pre_events:
+        outs = []          # notified before run(): whatever output there is predates run() (cfg.pre)
     positions = []
     for _ in outs:
         if fin_pos is None:
@@ -965,15 +1190,18 @@ def gen_case(rng, tier):
         else:
             lst.insert(lst.index("fin"), e)          # same slot, just before the notification
     if cfg["dieAfter"] and fin_pos is not None and rng.random() < 0.7:
-        i = rng.randint(fin_pos[0], min(n - 1, fin_pos[0] + 3))
+        i = rng.randint(max(fin_pos[0], 0), min(n - 1, max(fin_pos[0], 0) + 3))
         ss = [s for s in SLOTS if (i, SLOTS.index(s)) > fin_pos] if i == fin_pos[0] else list(SLOTS)
         if ss:
             iters[i].setdefault(rng.choice(ss), []).append("die")
+    never_ending_style(rng, cfg, iters, fin_pos)
     if rng.random() < 0.15:
         place("kill", 0, n - 1)
     for _ in range(rng.choice([0, 0, 0, 1, 2])):
         place("adv", 0, n - 1, slots=("gap", "gap", "s0", "s4"))
     case = {"cfg": cfg, "iters": iters}
+    if pre_events:
+        case["pre"] = pre_events
     if rng.random() < 0.1:
         case["log"] = rng.choice(["debug", "debug", "info", "warning"])     # ambient setting: log records really handled
     return case
@@ -1109,6 +1337,7 @@ def gen_case_composed(rng, tier, worlds):
         ss = [sl for si, sl in enumerate(SLOTS) if si > fin_pos[1]] if i == fin_pos[0] else list(SLOTS)
         if ss:
             iters[i].setdefault(rng.choice(ss), []).append("die")
+    never_ending_style(rng, cfg, iters, None if fin_pos is None else (fin_pos[0], fin_pos[1]))
     if rng.random() < 0.1:
         iters[rng.randint(0, n - 1)].setdefault(rng.choice(SLOTS), []).append("kill")
     for _ in range(rng.choice([0, 0, 0, 1, 2])):
@@ -1117,6 +1346,49 @@ def gen_case_composed(rng, tier, worlds):
     if rng.random() < 0.1:
         case["log"] = rng.choice(["debug", "debug", "info", "warning"])
     return case
+
+
+def gen_case_dir(rng, tier):
+    """real producer Jobs that stage inputs (direct references only / direct + component references / component
+    references only / none), are staged in before run() or while the observer polls, and write their first own file
+    later - or never"""
+    prods = []
+    spec = {}
+    for k in rng.sample(range(4), rng.choice([1, 1, 1, 2, 2, 3])):
+        same = rng.random() < 0.85
+        prods.append({"id": k, "same": same, "rep": rng.random() < 0.45})
+        spec[str(k)] = {"direct": rng.choice([["copy"], ["copy"], ["link"], ["copy", "link"], [], []]),
+                        "comp": rng.random() < 0.35}
+    cfg = {"retries": rng.choice([None, 0, 1, 2, 3]), "dieAfter": rng.random() < 0.1, "prods": prods, "pre": []}
+    r = DEFAULT_RETRIES if cfg["retries"] is None else cfg["retries"]
+    n = rng.randint(4, 8) + r
+    iters = [{"outcome": rng.choices(["ok", "fail", "raise"], [7, 2, 1])[0]} for _ in range(n)]
+    # the history of every producer: staged in, then 0-3 writes; merged in a random order; then the notification
+    seqs = []
+    for p in prods:
+        k = p["id"]
+        seqs.append(["stage:%d" % k] + ["out:%d" % k] * rng.choice([0, 1, 1, 2, 3]))
+    if rng.random() < 0.6:
+        seq = [q.pop(0) for q in seqs]            # all staged in first (the Controller stages a stage in a row)
+        rng.shuffle(seq)
+    else:
+        seq = []
+    while any(seqs):
+        q = rng.choice([q for q in seqs if q])
+        seq.append(q.pop(0))
+    if rng.random() < 0.85:
+        seq.append("fin")
+    npre = 0
+    while npre < len(seq) and seq[npre].startswith("stage:") and rng.random() < 0.75:
+        npre += 1
+    pre, seq = seq[:npre], seq[npre:]
+    hi = max(0, n - r - 3)
+    where = sorted((rng.randint(0, hi), rng.randrange(len(SLOTS))) for _ in seq)
+    for e, (i, si) in zip(seq, where):
+        iters[i].setdefault(SLOTS[si], []).append(e)
+    if rng.random() < 0.1:
+        iters[rng.randint(0, n - 1)].setdefault(rng.choice(("gap", "s0", "s4")), []).append("adv")
+    return {"cfg": cfg, "dir": spec, "pre": pre, "iters": iters}
 
 
 def events_in_order(case):
@@ -1130,6 +1402,8 @@ def events_in_order(case):
 
 def nontrivial(case, out):
     evs = list(events_in_order(case))
+    if "dir" in case:
+        return any(i.get("staged_only") for i in out["info"]) and len(out["execs"]) >= 1
     return (any(e == "fin" or e.startswith("pf:") for _s, e in evs) and len(out["execs"]) >= 1
             and any(s in INNER for s, _e in evs))
 
@@ -1188,6 +1462,35 @@ CORPUS = [
 ]
 
 
+D_COPY = {"0": {"direct": ["copy"], "comp": False}}
+CORPUS += [
+    # the notification PRECEDES run() (all producers over at stage-in), a kill delay is configured and the observer's
+    # task never ends by itself: the delay expires while it runs, the task is killed, the engine stops
+    {"cfg": {"retries": 1, "dieAfter": True, "prods": P1N, "pre": [0]}, "pre": ["fin"],
+     "iters": [{"outcome": "hang"}, {"outcome": "hang"}, {}, {}]},
+    # the same, the notification arrives while the never-ending task runs
+    {"cfg": {"retries": 1, "dieAfter": True, "prods": P1, "pre": []},
+     "iters": [{"s0": ["out:0"], "s3": ["fin"], "outcome": "hang"}, {"outcome": "hang"}, {}, {}]},
+    # notification before run(), short tasks that fail, the delay expires between two polls
+    {"cfg": {"retries": 5, "dieAfter": True, "prods": P1N, "pre": [0]}, "pre": ["fin"],
+     "iters": [{"outcome": "fail"}, {"outcome": "fail", "s4": ["die"]}, {"outcome": "fail"}, {}, {}]},
+    # a never-ending task, no kill delay, the producers never finish: nothing to say
+    {"cfg": {"retries": 1, "prods": P1, "pre": []}, "iters": [{"s0": ["out:0"], "outcome": "hang"}, {}, {}]},
+    # real producer Job (does not repeat) staged in before run() with data/params.txt:copy, writes its first own file
+    # during the third poll
+    {"cfg": {"retries": 1, "prods": P1N, "pre": []}, "dir": D_COPY, "pre": ["stage:0"],
+     "iters": [{}, {}, {"s0": ["out:0"]}, {"gap": ["fin"]}, {}, {}]},
+    # real repeating producer staged in (copy + link + a file of a component of an earlier stage) while the observer
+    # polls, writes later; a second producer without any reference wrote long ago
+    {"cfg": {"retries": 2, "prods": [{"id": 1, "same": True, "rep": True}, {"id": 0, "same": True, "rep": True}], "pre": []},
+     "dir": {"0": {"direct": ["copy", "link"], "comp": True}, "1": {"direct": [], "comp": False}}, "pre": ["stage:1"],
+     "iters": [{"s0": ["out:1"]}, {"gap": ["stage:0"]}, {"s3": ["out:1"]}, {"gap": ["out:0"]}, {"gap": ["out:1", "fin"]},
+               {}, {}, {}]},
+    # real producer with a component reference only, never writes: the observer is never able to consume
+    {"cfg": {"retries": 1, "prods": P1, "pre": []}, "dir": {"0": {"direct": [], "comp": True}}, "pre": ["stage:0"],
+     "iters": [{}, {"gap": ["fin"]}, {}, {}, {}]},
+]
+
 W_TWO_STAGES = {"comps": [[0, "simulation", "ok"], [1, "simulation", "ok"], [1, "A", "fail"], [0, "B", "ok"]],
                 "stage": 1, "refs": [[1, ":ref"], [0, ":ref"]]}
 W_DUPREFS = {"comps": [[0, "A", "ok"], [0, "B", "shutdown"]], "stage": 0,
@@ -1207,6 +1510,9 @@ CORPUS_COMPOSED = [
     {"cfg": {"retries": 1, "rep": [0, 1], "pre": []}, "world": W_DUPREFS, "pre": ["stagein"],
      "iters": [{"s0": ["out:0", "out:1"]}, {"gap": ["px:0"], "s3": ["pf:1"]}, {"s0": ["px:0", "out:0"]},
                {"s4": ["pf:0"]}, {}, {}, {}]},
+    # every producer is over before stage-in: notified at stage-in, BEFORE run(); kill delay and a never-ending task
+    {"cfg": {"retries": 2, "dieAfter": True, "rep": [], "pre": [0]}, "world": W_EARLIER_ONLY, "pre": ["pf:0", "stagein"],
+     "iters": [{"outcome": "hang"}, {"outcome": "hang"}, {}, {}]},
     # every producer is over before stage-in: notified at stage-in
     {"cfg": {"retries": 2, "rep": [], "pre": [0]}, "world": W_EARLIER_ONLY, "pre": ["pf:0", "stagein"],
      "iters": [{}, {"s2": ["pf:1"]}, {}, {}, {}]},
@@ -1256,8 +1562,24 @@ def c13_output_predates_run(what, case, detail):
     return not any(e.startswith("out:") and int(e[4:]) in ids for _s, e in events_in_order(case))
 
 
+def c13_kill_delay_expires_before_launch(what, case, detail):
+    """the kill delay expires (and the engine notices: its expiry flag is set) between the `_suicide` check at the
+    start of a poll and the launch of THAT poll (slots s1 / s2 of the poll that launches the never-ending task which
+    is then never killed): exactly the histories excluded by hypothesis `hw` of kill_delay_expiry_stops_partial"""
+    if what != "kill-delay-expired-task-never-killed" or not isinstance(detail, dict):
+        return False
+    if not detail.get("engine_noticed_the_expiry"):
+        return False
+    k = detail.get("poll")
+    its = normalise(case)["iters"]
+    if not isinstance(k, int) or not (0 <= k < len(its)) or its[k].get("outcome") != "hang":
+        return False
+    return any("die" in its[k].get(sl, []) for sl in ("s1", "s2"))
+
+
 CLASSIFIERS = {"c13_zero_retries_race": c13_zero_retries_race,
-               "c13_output_predates_run": c13_output_predates_run}
+               "c13_output_predates_run": c13_output_predates_run,
+               "c13_kill_delay_expires_before_launch": c13_kill_delay_expires_before_launch}
 
 
 # ----------------------------------------------------------------------------------------
@@ -1269,8 +1591,20 @@ def model_cfg(case):
             "prods": prods_of(case), "pre": list(cfg.get("pre", []))}
 
 
+def model_event(e):
+    """events the poll-protocol model does not see: staging a producer in (what is staged is input, not output)"""
+    return not e.startswith("stage:")
+
+
 def model_iters(case):
-    return [{k: v for k, v in it.items()} for it in case["iters"]]
+    its = []
+    for it in case["iters"]:
+        it = {k: ([e for e in v if model_event(e)] if isinstance(v, list) else v) for k, v in it.items()}
+        its.append(it)
+    if "world" not in case and case.get("pre") and its:
+        # the model does not tell `before run()` from `before the first look of the monitor`
+        its[0]["gap"] = [e for e in case["pre"] if model_event(e)] + list(its[0].get("gap", []))
+    return its
 
 
 def run_impl(case):
@@ -1410,6 +1744,7 @@ def check_cases(ctx, cases):
     reqs = [model_request(c) for c in cases]
     mouts = ctx.model(reqs)
     flat_reqs = []
+    dir_reqs = []
     for idx, case in enumerate(cases):
         try:
             out = run_impl(case)
@@ -1444,7 +1779,23 @@ def check_cases(ctx, cases):
                 if e is not None and not e["started"] and i.get("truth_at_begin", i["fin_at_begin"]):
                     tags.append("launch-raises-after-producers-finished" + ("/after-an-earlier-success" if seen_ok else ""))
                 seen_ok = seen_ok or bool(i.get("rc0"))
-        tags += world_tags(case, out) if "world" in case else ["mode:direct"]
+        tags += world_tags(case, out) if "world" in case else ["mode:dir" if "dir" in case else "mode:direct"]
+        if case.get("pre") and "fin" in case["pre"]:
+            tags.append("notified-before-run")
+        if any(it.get("outcome") == "hang" for it in case["iters"]):
+            tags.append("never-ending-task")
+        if out.get("hung"):
+            tags.append("never-ending-task-never-killed")
+        if out.get("expired"):
+            tags.append("kill-delay-expired")
+        if "dir" in case:
+            for k, sp in sorted(case["dir"].items()):
+                tags.append("producer-stages:" + ("+".join(sp["direct"] + (["component-ref"] if sp["comp"] else [])) or "nothing"))
+            if any(i.get("staged_only") for i in out["info"]):
+                tags.append("poll-while-a-producer-holds-only-staged-inputs")
+            if any(e.startswith("stage:") for s_, e in events_in_order(case) if s_ != "pre"):
+                tags.append("producer-staged-in-after-run")
+            dir_reqs.append((case, out))
         ctx.case(case, nontrivial=nontrivial(case, out), tags=tags)
         for what, detail in oracle(case, out):
             full = {"detail": detail, "snaps": out["snaps"], "execs": out["execs"],
@@ -1484,6 +1835,13 @@ def check_cases(ctx, cases):
                                    "ops": m["cflat"]}, m, case))
             else:
                 flat_reqs.append(({"op": "flat", "cfg": model_cfg(case), "ops": m["flat"]}, m, case))
+    if mouts is not None and dir_reqs:
+        flat = [(case, k, log) for case, out in dir_reqs for k, log in sorted(out["dirlog"].items())]
+        douts = ctx.model([{"op": "dir", "ops": [e[0] for e in log]} for _c, _k, log in flat])
+        for (case, k, log), dm in zip(flat, douts):
+            ctx.compare("real WorkingDirectory.output / inputs of a producer after Job.stageIn and after every write == "
+                        "RepeatDir.stageIn / dstep", case,
+                        [[st["output"], st["inputs"]] for st in dm["steps"]], [[e[1], e[2]] for e in log])
     if mouts is not None and flat_reqs:
         fouts = ctx.model([r for r, _m, _c in flat_reqs])
         for (r, m, case), f in zip(flat_reqs, fouts):
@@ -1610,7 +1968,13 @@ def run(ctx):
                 "before run() - read by the real Engine.canConsume and the real Job.producersHaveOutputSinceDate) "
                 "x 3..21 polls with task outcomes ok/fail/generator-raises and environment events (producers finished, "
                 "new output of one given producer (staggered producers: each starts writing at its own moment or never), "
-                "external kill, kill-delay timer, >20 s wait) placed at 6 interleaving points of each poll; a style in which "
+                "external kill, kill-delay timer, >20 s wait) placed at 6 interleaving points of each poll; the notification "
+                "BEFORE run() (12% of the direct cases; composed cases whose producers are all over at stage-in) with and without a "
+                "kill delay; tasks that never end by themselves (45% of the cases with a kill delay, 4% of the others: the harness "
+                "delivers the events of the turn while the task runs, then lets every pending timer expire in virtual time); "
+                "dir cases: 1-3 REAL producer Jobs of a real experiment staged in by the real Job.stageIn (direct references :copy / :link "
+                "only, direct + component reference, component reference only, none; before run() or while the observer polls) that write "
+                "their first own file later or never, observed by the real observer Job; a style in which "
                 "what an earlier poll left behind differs from the first attempts after the notification (executions succeed "
                 "while a producer runs, then the first 1-3 launches after the notification raise / fail); repeatRetries 10/11 "
                 "now and then; 10% of the cases under an ambient log level debug/info/warning with records really handled; "
@@ -1627,8 +1991,9 @@ def run(ctx):
                 "every task exit), some producers never finish; an exception escaping from the real code while it is "
                 "driven is an oracle failure (real-code-raises-<where>-<Exception>); "
                 "non-trivial = the producers-finished notification (resp. the finish of a component) occurs, at least "
-                "one task is launched and at least one event lands inside a poll (s1-s4); distinct by canonical JSON "
-                "of the case.")
+                "one task is launched and at least one event lands inside a poll (s1-s4); dir cases: a poll begins while a "
+                "same-stage producer's directory holds staged-in files and nothing of its own, and a task is launched at "
+                "some point; distinct by canonical JSON of the case.")
     ctx.assumptions = [
         "producers write no output after the producers-finished notification (generator never schedules it: "
         "in composed cases a producer writes only before its own finish)",
@@ -1641,6 +2006,11 @@ def run(ctx):
         "replaced by the script; canConsume is driven with delay=0 only (the only call RepeatingEngine makes)",
         "a stop caused by the configured kill delay is treated like a cancellation from outside for the "
         "'final output observed' clause (it is a forced stop by configuration)",
+        "kill delay: the delay counts from the moment all producers have finished; `die` (resp. the harness driving the "
+        "pending timers while a never-ending task runs) is the moment it has elapsed; a never-ending task without a "
+        "configured kill delay, or whose producers never finish, is outside the property (nothing is claimed)",
+        "dir cases: a producer's task writes files of its own names (it does not modify a staged-in file in place); "
+        "staged files appear at the virtual time of the stage-in",
         "a launch whose task generator raises counts as an ATTEMPT (it uses up a retry; with every attempt failing the "
         "engine may stop when the retries are used up) but not as a started execution: a stop with retries left must be "
         "decided by a poll that itself started an execution after the producers' last output which exited 0",
@@ -1650,7 +2020,10 @@ def run(ctx):
                        "schedulers (harness/c13.py); composed cases: stand-in for the Controller finishing components "
                        "(ComponentState.finish on real ComponentStates of real Jobs), fake engines of the other "
                        "components and trampoline scheduler of harness/detsim.py, stageIn(stageData=False); restart "
-                       "of a repeating engine (lastExecution), optimizer, real timers and threads are not modelled")
+                       "of a repeating engine (lastExecution), optimizer, real timers and threads are not modelled; dir cases: "
+                       "real Jobs / working directories of an experiment built by tests.utils.experiment_from_flowir, a proxy of the "
+                       "observer Job that brackets producersHaveOutputSinceDate with the interleaving point s1, mtimes set from "
+                       "the virtual clock")
     ctx.classifiers = CLASSIFIERS
     ctx.shrinker = shrink
     rng = ctx.rng
@@ -1659,6 +2032,7 @@ def run(ctx):
     nw, nc = (60, 1200) if ctx.tier == "quick" else (600, 20000)
     worlds = [gen_world(rng) for _ in range(nw)]
     cases += [copy.deepcopy(c) for c in CORPUS_COMPOSED] + [gen_case_composed(rng, ctx.tier, worlds) for _ in range(nc)]
+    cases += [gen_case_dir(rng, ctx.tier) for _ in range(120 if ctx.tier == "quick" else 1500)]
     suite = order_suite()
     ks = list(range(len(suite)))
     sh = list(ks)
